@@ -76,6 +76,7 @@ def plan(tier, seed):
     shards = [("grain", tier, ci, u0) for ci in range(len(CELLS)) for u0 in range(4)]
     shards += [("map", tier, ci) for ci in range(len(CELLS))]
     shards += [("grainsinos", tier, ci) for ci in range(len(CELLS))]
+    shards += [("combine", tier, ci) for ci in range(len(CELLS))]
     k = seed % len(shards)
     return shards[k:] + shards[:k]
 
@@ -438,8 +439,81 @@ def _run_grainsinos(desc):
     return sh
 
 
+OWNERS = ([0, 0, 1, 1, 2, 2, -1, 1], [1, 1, 1, 2, 2, 2, -1, -1], [0, 0, 0, 0, 2, 2, 2, -1], [2, 2, 2, 2, 2, 2, 2, 2], [0, 1, 2, 0, 1, 2, 0, 1],
+          [-1, -1, -1, -1, 1, 1, 2, 0])
+
+
+def build_phase_maps(tm, ucm, cells, ubis_for, owners, shape=(1, 2, 4)):
+    """three mono-phase TensorMaps over one grid: voxel v belongs to map owners[v] (-1: nobody); a map may own nothing at all"""
+    n = int(np.prod(shape))
+    maps = []
+    for k in range(3):
+        ubi = np.full((n, 3, 3), np.nan)
+        pid = np.full(n, -1, int)
+        lab = np.full(n, -1, int)
+        for v in range(n):
+            if owners[v] == k:
+                ubi[v] = ubis_for(k, v)
+                pid[v] = 0
+                lab[v] = v % 2              # grain labels restart in every phase
+        maps.append(tm.TensorMap(maps={"UBI": ubi.reshape(shape + (3, 3)), "phase_ids": pid.reshape(shape), "labels": lab.reshape(shape)},
+                                 phases={0: ucm.unitcell(cells[k], "P")}))
+    return maps
+
+
+def _run_combine(desc):
+    """TensorMap.from_combine_phases: three mono-phase maps (one of them possibly empty, in any position of the list) combined into one:
+    every voxel is measured against the reference cell of the map it came from (strain = the per-grain one), its phase id is that
+    map's position in the list"""
+    _, tier, ci = desc
+    from ImageD11 import grain as gm, unitcell as ucm
+    from ImageD11.sinograms import tensor_map as tm
+    import io, contextlib
+    sh = Shard()
+    cells = [CELLS[ci], CELLS[(ci + 1) % len(CELLS)], CELLS[(ci + 3) % len(CELLS)]]
+    St = stretches(tier)
+    R = rots(seed_of())
+
+    def ubis_for(k, v):
+        F = np.dot(R[(k + v) % len(R)], St[(2 + k + 2 * v) % len(St)])
+        return np.dot(F, np.linalg.inv(O.cell_to_B(cells[k]).T)).T
+    shape = (1, 2, 4)
+    for owners in OWNERS:
+        for order in itertools.permutations(range(3)):
+            with contextlib.redirect_stdout(io.StringIO()):
+                parts = build_phase_maps(tm, ucm, cells, ubis_for, owners, shape)
+                T = tm.TensorMap.from_combine_phases([parts[k] for k in order])
+                es = np.array(T.eps_sample).reshape(-1, 3, 3)
+                T2 = tm.TensorMap.from_combine_phases([parts[k] for k in order])
+                ec = np.array(T2.eps_crystal).reshape(-1, 3, 3)
+                pid = np.array(T.phase_ids).reshape(-1)
+            case = {"kind": "combine", "cell": CELLS[ci], "owners": list(owners), "order_of_the_maps": list(order), "seed": seed_of()}
+            worst = 0.0
+            bad = None
+            for v in range(8):
+                k = owners[v]
+                if k < 0:
+                    if pid[v] != -1:
+                        bad = ("phase-id-on-a-voxel-nobody-owns", {"voxel": v, "phase_id": int(pid[v])})
+                    continue
+                if pid[v] != order.index(k):
+                    bad = ("phase-id-is-not-the-position-of-the-owning-map", {"voxel": v, "phase_id": int(pid[v]), "expected": order.index(k)})
+                    break
+                g = gm.grain(ubis_for(k, v))
+                worst = max(worst, float(np.abs(es[v] - g.eps_sample_matrix(cells[k], 0.5)).max()), float(np.abs(ec[v] - g.eps_grain_matrix(cells[k], 0.5)).max()))
+            if bad:
+                sh.violation("TensorMap.from_combine_phases:" + bad[0], case, bad[1])
+            elif not worst <= 1e-10:
+                sh.violation("TensorMap.from_combine_phases:voxel-strain-is-not-the-per-grain-strain-against-its-own-phase", case, {"max_diff": worst})
+            sh.evaluations += 1
+            sh.nontrivial += 1
+    sh.outcomes.add(("combine", ci))
+    sh.sample(case, limit=1)
+    return sh
+
+
 def run_shard(desc):
-    return {"grain": _run_grain, "map": _run_map, "grainsinos": _run_grainsinos}[desc[0]](desc)
+    return {"grain": _run_grain, "map": _run_map, "grainsinos": _run_grainsinos, "combine": _run_combine}[desc[0]](desc)
 
 
 def replay(case):
@@ -449,6 +523,9 @@ def replay(case):
         r = _run_grain(("grain", "thorough", ci, case["ref_orientation"]))
         v = [x for x in r.violations if x["case"].get("stretch") == case["stretch"] and x["case"].get("rotation") == case["rotation"]
              and x["case"].get("m") == case["m"]]
+    elif case["kind"] == "combine":
+        r = _run_combine(("combine", "thorough", CELLS.index(case["cell"])))
+        v = [x for x in r.violations if x["case"]["owners"] == case["owners"] and x["case"]["order_of_the_maps"] == case["order_of_the_maps"]]
     elif case["kind"] == "grainsinos":
         r = _run_grainsinos(("grainsinos", "thorough", CELLS.index(case["cell"])))
         v = [x for x in r.violations if x["case"]["gids"] == case["gids"] and x["case"]["use_gids"] == case["use_gids"]]
